@@ -82,7 +82,7 @@ func ScriptFromDataAndConstant(name stringConstant, data interface{}, script str
 // it does not match identifiers that contain non-ASCII letters, Unicode
 // escape sequences, and the Unicode format-control characters
 // \u200C (zero-width non-joiner) and \u200D (zero-width joiner).
-var jsIdentifierPattern = regexp.MustCompile(`^[$_a-zA-Z][$_a-zA-Z0-9]+$`)
+var jsIdentifierPattern = regexp.MustCompile(`^[$_a-zA-Z][$_a-zA-Z0-9]*$`)
 
 // String returns the string form of the Script.
 func (s Script) String() string {
